@@ -121,6 +121,38 @@ def main(argv):
                     c.violation("forged reply delivered to get(): %s MAC, %s, %s session: returned %s"
                                 % (mt["mac"], "sent in clear" if mt["enc"] == "no" else "encrypted as configured", mt["alg"] + ("+priv" if mt["priv"] else ""), got),
                                 {"scenario": dict(sc, steps=[st]), "case": mt, "outcome": out}, key="forged-delivered:" + cls)
+    # ---- the same for sessions that LEARN their engine id (None / b"", first probe lost and the entry retried; sync and async):
+    # the session holds the user's keys afterwards, so a reply for another (the empty) user, unauthenticated and in clear,
+    # is dropped, a genuine one is delivered, and the requests are flagged authenticated
+    from lib import v3sessions
+
+    def forged_steps(v3):
+        fvb = ber.varbind(ber.enc_oid([1, 3, 6, 1, 2, 1, 1, 5, 0]), ber.enc_value("os", b"FORGED"))
+        gvb = ber.varbind(ber.enc_oid([1, 3, 6, 1, 2, 1, 1, 5, 0]), ber.enc_value("os", b"GENUINE"))
+        base = {"boots": v3["boots"], "time": v3["time"]}
+        return [{"op": "get", "args": ["1.3.6.1.2.1.1.5.0"], "_forged": "empty user, no MAC, in clear",
+                 "replies": [[dict(base, vbs=fvb.hex(), user="", mac="absent", encrypt="no", flags=0)]]},
+                {"op": "get", "args": ["1.3.6.1.2.1.1.5.0"], "_forged": "another user",
+                 "replies": [[dict(base, vbs=fvb.hex(), user=b"mallory".hex())]]},
+                {"op": "get", "args": ["1.3.6.1.2.1.1.5.0"], "_forged": "empty user in front of the genuine reply",
+                 "replies": [[dict(base, vbs=fvb.hex(), user="", mac="absent", encrypt="no", flags=0), dict(base, vbs=gvb.hex())]], "_genuine": True}]
+    scs2, recs2 = v3sessions.run(c, v3exe, "C10", {"auth-flag", "user"}, n_gets=1, extra_steps=forged_steps)
+    for sc, rec in zip(scs2, recs2 or []):
+        if "driver_error" in rec or rec.get("create_error"):
+            continue
+        for st, out in zip(sc["steps"], rec["steps"]):
+            if "_forged" not in st:
+                continue
+            n += 1
+            got = out.get("value") or out.get("exc")
+            if out["kind"] == "RET" and got == "bytes:" + b"FORGED".hex():
+                c.violation("%s: a reply for %s was delivered (%s)" % (v3sessions.label(sc), st["_forged"], got),
+                            {"scenario": v3sessions.strip(dict(sc, steps=[x for x in sc["steps"] if x["op"] == "enter"] + [st])), "outcome": out},
+                            key="accepted-mismatch:user")
+            elif st.get("_genuine") and got != "bytes:" + b"GENUINE".hex():
+                c.violation("%s: the genuine reply behind a dropped one was not delivered (%s)" % (v3sessions.label(sc), got),
+                            {"scenario": v3sessions.strip(dict(sc, steps=[x for x in sc["steps"] if x["op"] == "enter"] + [st])), "outcome": out},
+                            key="valid-reply-dropped")
     return c.finish(
         rule="%d otherwise-matching replies: MAC {valid, zero, random, one bit flipped, absent (auth flag clear)} x {encrypted as configured, "
              "sent in clear} x {GetResponse, Report} x mismatching {none; user / engine id different, extended, truncated, empty; msgID and request-id different or differing only above bit 30} x {SHA-1, MD5 password, "
